@@ -754,3 +754,17 @@ class StreamRequestHandler:
 
 def always_true(x):
     return True
+
+
+class aclosing:
+    """contextlib.aclosing(thing): `await thing.aclose()` on exit, never swallows"""
+
+    def __init__(self, thing):
+        self.thing = thing
+
+    async def __aenter__(self):
+        return self.thing
+
+    async def __aexit__(self, et, ev, tb):
+        await self.thing.aclose()
+        return False
